@@ -5,6 +5,7 @@ import (
 	"encoding/json"
 	"fmt"
 	"github.com/remieven/ysgo/markup"
+	"io"
 	"math"
 	"os"
 	"os/exec"
@@ -110,6 +111,19 @@ type c09Item struct {
 type execOpts struct {
 	tag     string
 	restore *ysgo.Snapshot
+	// gate, when set, makes the first reader block in its first Read until the channel is closed
+	gate <-chan struct{}
+}
+
+// gatedReader delivers its content only once the gate is open.
+type gatedReader struct {
+	r    io.Reader
+	gate <-chan struct{}
+}
+
+func (g *gatedReader) Read(p []byte) (int, error) {
+	<-g.gate
+	return g.r.Read(p)
 }
 
 var c09Batch []c09Item
@@ -126,7 +140,19 @@ func c09ExecHooked(scripts []string, seed string, choiceSeed uint64, hook func(s
 
 func c09ExecOpts(scripts []string, seed string, choiceSeed uint64, hook func(step int), eo execOpts) (string, string) {
 	st := mon.NewRecStorer()
-	rr, err, pan := mon.Create(st, seed, scripts)
+	var rr *mon.Real
+	var err error
+	var pan string
+	if eo.gate != nil {
+		readers := make([]io.Reader, len(scripts))
+		for i, s := range scripts {
+			readers[i] = strings.NewReader(s)
+		}
+		readers[0] = &gatedReader{r: readers[0], gate: eo.gate}
+		rr, err, pan = mon.CreateFrom(st, seed, readers)
+	} else {
+		rr, err, pan = mon.Create(st, seed, scripts)
+	}
 	if pan != "" {
 		return "panic-at-creation", pan
 	}
@@ -591,7 +617,8 @@ func c09Aux(args []string) int {
 
 // startSnapshot is a snapshot of the start node of a C18 program (its nodes are called N1, N2, …).
 func startSnapshot() *ysgo.Snapshot {
-	return &ysgo.Snapshot{CurrentNode: "N1", Variables: map[string]variable.Value{}, VisitedNodes: map[string]int{}}
+	// like a save file that lists every node: counts of 0 for nodes never left, and a name that is no node
+	return &ysgo.Snapshot{CurrentNode: "N1", Variables: map[string]variable.Value{}, VisitedNodes: map[string]int{"N1": 0, "N2": 0, "N3": 0, "N4": 0, "Elsewhere": 0}}
 }
 
 // scribble writes a property of its own into every attribute of a returned element.
